@@ -139,7 +139,7 @@ impl World {
                 event_authority: self.event_authority(),
                 program: STORE_PID,
             },
-            si::ExecuteDeposit { execution_fee: EXECUTION_FEE, throw_on_execution_error },
+            si::ExecuteDeposit { execution_fee: self.exec_fee, throw_on_execution_error },
         );
         ix.accounts.extend(self.feed_metas(d.swap().tokens()));
         let others: Vec<Pubkey> = d.swap().unique_market_tokens_excluding_current(&market_token).copied().collect();
@@ -308,7 +308,7 @@ impl World {
                 event_authority: self.event_authority(),
                 program: STORE_PID,
             },
-            si::ExecuteWithdrawal { execution_fee: EXECUTION_FEE, throw_on_execution_error },
+            si::ExecuteWithdrawal { execution_fee: self.exec_fee, throw_on_execution_error },
         );
         ix.accounts.extend(self.feed_metas(w.swap().tokens()));
         let others: Vec<Pubkey> = w.swap().unique_market_tokens_excluding_current(&market_token).copied().collect();
@@ -632,7 +632,7 @@ impl World {
                     event_authority: self.event_authority(),
                     program: STORE_PID,
                 },
-                si::ExecuteDecreaseOrderV2 { recent_timestamp: ts, execution_fee: EXECUTION_FEE, throw_on_execution_error },
+                si::ExecuteDecreaseOrderV2 { recent_timestamp: ts, execution_fee: self.exec_fee, throw_on_execution_error },
             )
         } else {
             six(
@@ -668,7 +668,7 @@ impl World {
                     event_authority: self.event_authority(),
                     program: STORE_PID,
                 },
-                si::ExecuteIncreaseOrSwapOrderV2 { recent_timestamp: ts, execution_fee: EXECUTION_FEE, throw_on_execution_error },
+                si::ExecuteIncreaseOrSwapOrderV2 { recent_timestamp: ts, execution_fee: self.exec_fee, throw_on_execution_error },
             )
         };
         exec.accounts.extend(self.feed_metas(o.swap().tokens()));
@@ -827,7 +827,7 @@ impl World {
                 event_authority: self.event_authority(),
                 program: STORE_PID,
             },
-            si::ExecuteShift { execution_lamports: EXECUTION_FEE, throw_on_execution_error },
+            si::ExecuteShift { execution_lamports: self.exec_fee, throw_on_execution_error },
         );
         ix.accounts.extend(self.feed_metas(&tokens));
         Some(ix)
